@@ -85,18 +85,31 @@ Robust == Result.out \in {"ok", "err"} /\ Result.reads <= Bound
 (* Corruption recipes for real files: (site, class)                         *)
 Sites == {"child-pointer", "rightmost-pointer", "overflow-first", "overflow-next", "cell-count", "cell-pointer",
           "payload-length", "record-header-size", "serial-type", "rowid-varint", "page-type", "master-rootpage",
-          "master-sql", "header-field", "truncate", "free-bytes", "journal-bytes"}
+          "master-sql", "header-field", "truncate", "free-bytes", "journal-bytes", "byte-sweep", "journal-header"}
 Classes == {"zero", "self", "root", "other-kind", "beyond-file", "max32", "huge-length", "negative-varint", "plus-one",
-            "minus-one", "doubled", "random-byte", "text-garbage", "cut"}
+            "minus-one", "doubled", "random-byte", "text-garbage", "cut", "shortened", "inconsistent"}
 \* which classes make sense at which site
 Applies(site, class) ==
     CASE site \in {"child-pointer", "rightmost-pointer", "overflow-first", "overflow-next", "master-rootpage"} ->
             class \in {"zero", "self", "root", "other-kind", "beyond-file", "max32"}
       [] site \in {"cell-count", "cell-pointer"} -> class \in {"zero", "plus-one", "doubled", "max32", "random-byte"}
-      [] site \in {"payload-length", "record-header-size", "serial-type", "rowid-varint"} ->
+      \* "shortened": a payload length reduced by 2..8, so that the record ends inside its last value, whatever its width
+      [] site = "payload-length" -> class \in {"zero", "plus-one", "minus-one", "doubled", "huge-length", "negative-varint", "shortened"}
+      [] site \in {"record-header-size", "serial-type", "rowid-varint"} ->
             class \in {"zero", "plus-one", "minus-one", "doubled", "huge-length", "negative-varint"}
+      \* "byte-sweep": EVERY byte of the structured part of every page of a small file (page headers, cell pointer
+      \* arrays, cell headers, record headers, first and last bytes of the bodies), one image per byte and class;
+      \* huge-length = the varint continuation bit set
+      [] site = "byte-sweep" -> class \in {"zero", "max32", "plus-one", "minus-one", "huge-length"}
+      \* "journal-header": a well-formed hot-journal header (magic, record count, nonce, initial size, sector size, page
+      \* size) with ONE field replaced -- doubled = every power of two 2^0..2^31 -- or the file cut at every length
+      \* around the header and the first sector
+      [] site = "journal-header" -> class \in {"zero", "plus-one", "minus-one", "doubled", "max32", "huge-length", "cut"}
       [] site = "page-type" -> class \in {"zero", "other-kind", "random-byte"}
-      [] site = "master-sql" -> class \in {"text-garbage", "zero", "cut"}
+      \* "inconsistent": a syntactically fine definition that does not describe the stored b-tree, or that SQLite itself
+      \* would refuse (constraint on a column that does not exist, duplicate columns, WITHOUT ROWID flipped, fewer / more
+      \* columns than stored, table and index definitions swapped, index on another table's columns)
+      [] site = "master-sql" -> class \in {"text-garbage", "zero", "cut", "inconsistent"}
       [] site \in {"header-field", "free-bytes"} -> class \in {"random-byte", "zero", "max32"}
       [] site = "truncate" -> class = "cut"
       [] site = "journal-bytes" -> class \in {"random-byte", "text-garbage", "cut"}
